@@ -93,6 +93,7 @@ inductive NameSel where
   | symbol                        -- "transcript_symbol" / "feature_name" (the defaults)
   | ident                         -- "transcript_id" / "feature_id"
   | literal (s : List Char)       -- a string that is not an attribute name: used directly
+  | seqname                       -- "sequence_name": any OTHER attribute of the record resolves to its value too
   deriving DecidableEq, Repr
 
 structure Iv where
@@ -166,6 +167,7 @@ def selName (x : Iv) : NameSel → Option (List Char)
   | .symbol => x.symbol
   | .ident => x.ident
   | .literal s => some s
+  | .seqname => x.seqName
 
 /-- `block_sizes = [end - start for start, end in blocks]` -/
 def sizes (bs : List Blk) : List Nat := bs.map fun b => b.2 - b.1
